@@ -234,6 +234,14 @@ class C10(Check):
             while np.min(np.abs(cum - g)) < F_TIE_MARGIN:
                 g -= 3 * F_TIE_MARGIN
             fmap[f] = g
+        # boundary letters: just below and just above every cumulative variance ratio of the original spectrum
+        # (one letter per case split of the fraction rule; they stay meaningful after trimming, where a rule
+        # that normalised by the kept instead of the original variance would count differently)
+        for i in range(K):
+            lo = cum[i] - 1e-3 * (cum[i] - (cum[i - 1] if i else 0.0))
+            fmap["b%d-" % i] = float(lo)
+            if i + 1 < K:
+                fmap["b%d+" % i] = float(cum[i] + 1e-3 * (cum[i + 1] - cum[i]))
         r = rs(self.seed, "c10-probe", n, d, centre, variant)
         scale = float(np.abs(X).max())
         probes = [mean + scale * r.randn(d), scale * r.randn(d), X[0].copy(), X[-1].copy()]
@@ -275,11 +283,16 @@ class C10(Check):
             out.append(("actnp", k))
         for f in F_LETTERS + F_INVALID:
             out.append(("actf", f))
+        bounds = ["b%d%s" % (i, sgn) for i in range(K) for sgn in "-+" if "b%d%s" % (i, sgn) in st["fmap"]]
+        for b in bounds:
+            out.append(("actf", b))
         out.append(("trim", None))
         for k in range(0, K + 2):
             out.append(("trim", k))
         for f in F_LETTERS + (0.0, 1.5):
             out.append(("trimf", f))
+        for b in bounds:
+            out.append(("trimf", b))
         return out
 
     # ------------------------------------------------------------------ model of one step
